@@ -431,8 +431,9 @@ fn expand(m: &BTreeMap<u32, (usize, usize)>, f: impl Fn(usize, usize) -> usize) 
 fn check_set<T: PartialEq + Debug>(c: &mut Case, class: &str, what: &str, exp: &[T], got: &[T]) -> Res { c.ev(exp.len().max(1) as u64); ensure!(got == exp, class, "{what}: got {} want {}", short(got), short(exp)); Ok(()) }
 type P = (u32, u32); // (key, provenance/index) — compared by key only
 fn kcmp(a: &P, b: &P) -> Ordering { a.0.cmp(&b.0) }
-fn setops_case(c: &mut Case, op: usize, fam: usize) -> Res {
-    let (a, b) = set_inputs(c, fam); let m = counts2(&a, &b);
+fn setops_case(c: &mut Case, op: usize, fam: usize) -> Res { let (a, b) = set_inputs(c, fam); setops_check(c, op, a, b) }
+fn setops_check(c: &mut Case, op: usize, a: Vec<u32>, b: Vec<u32>) -> Res {
+    let m = counts2(&a, &b);
     let pa: Vec<P> = a.iter().enumerate().map(|(i, &k)| (k, i as u32)).collect(); let pb: Vec<P> = b.iter().enumerate().map(|(i, &k)| (k, 100_000 + i as u32)).collect();
     let in_b: BTreeSet<u32> = b.iter().copied().collect(); let in_a: BTreeSet<u32> = a.iter().copied().collect();
     let from_a: Vec<P> = pa.iter().copied().filter(|x| in_b.contains(&x.0)).collect(); let from_b: Vec<P> = pb.iter().copied().filter(|x| in_a.contains(&x.0)).collect();
@@ -471,6 +472,10 @@ fn kway_k(c: &mut Case) -> usize { if c.rng.chance(4, 5) { c.rng.usize_below(8) 
 macro_rules! libs { ($what:expr, $e:expr) => { match nopanic($what, || $e)? { Ok(x) => x, Err(e) => return Err(bad("setop_err", format!("{} returned Err: {e}", $what))) } } }
 fn kway_case(c: &mut Case, op: usize, strict: bool) -> Res {
     let k = if op == 5 { 33 + c.rng.usize_below(8) } else if op == 0 { kway_k(c).min(32) } else { kway_k(c) }; let ws = kway_inputs(c, k, strict);
+    kway_check(c, op, ws)
+}
+fn kway_check(c: &mut Case, op: usize, ws: Vec<Vec<u32>>) -> Res {
+    let k = ws.len();
     let its = |ws: &Vec<Vec<u32>>| -> Vec<std::vec::IntoIter<u32>> { ws.iter().cloned().map(|w| w.into_iter()).collect() };
     let mut cnt: BTreeMap<u32, Vec<usize>> = BTreeMap::new(); for (i, w) in ws.iter().enumerate() { for &x in w { cnt.entry(x).or_insert_with(|| vec![0; k])[i] += 1; } }
     // multiset intersection of k sequences: each value min-count times (equals "value present in every way" for strict sets)
@@ -498,12 +503,246 @@ fn run_setops(ctx: &mut Ctx) {
 
 
 
+
+// ---- huge_ families: > 65 536 and > 10^6 elements through every sorter / merge / set operation -----------------
+// Sizes sit just above 16-bit / 20-bit limits; shapes put > 65 535 copies of one value, keys that differ only in the
+// high bytes, or long sorted stretches through the sequential AND parallel paths. Oracles stay O(n log n) (std sort).
+const HUGE_64K: &[usize] = &[65_535, 65_536, 65_537, 131_071, 131_072, 131_073, 131_074, 196_609, 262_145];
+const HUGE_1M: &[usize] = &[1_000_001, 1_048_575, 1_048_576, 1_048_577, 1_200_003];
+fn huge_n(c: &mut Case, big: bool) -> usize { *c.rng.pick(if big { HUGE_1M } else { HUGE_64K }) }
+fn huge_ints(c: &mut Case, shape: &str, n: usize, bits: u32) -> Vec<u64> {
+    let mask = if bits >= 64 { u64::MAX } else { (1u64 << bits) - 1 }; let r = &mut c.rng;
+    match shape {
+        "full" => (0..n).map(|_| r.next() & mask).collect(),
+        "hi_byte" => { let low = r.next() & (mask >> 8); let sh = bits - 8; (0..n).map(|_| ((r.below(256) << sh) | low) & mask).collect() }
+        "hi_word" => { let low = r.next() & (mask >> (bits / 2)); let sh = bits / 2; (0..n).map(|_| ((r.next() << sh) | low) & mask).collect() }
+        "dominant" => { let v = r.next() & mask; let pc = 60 + r.below(40); (0..n).map(|_| if r.below(100) < pc { v } else { r.next() & mask }).collect() }
+        "all_equal" => { let v = r.next() & mask; vec![v; n] }
+        "sorted" => { let mut v: Vec<u64> = (0..n).map(|_| r.next() & mask).collect(); v.sort_unstable(); v }
+        "reversed" => { let mut v: Vec<u64> = (0..n).map(|_| r.next() & mask).collect(); v.sort_unstable(); v.reverse(); v }
+        "period" => { let p = *r.pick(&[2usize, 3, 15, 16, 255, 256, 257]); let pat: Vec<u64> = (0..p).map(|_| r.next() & mask).collect(); (0..n).map(|i| pat[i % p]).collect() }
+        "blocks" => { let nb = 2 + r.usize_below(40); let mut v: Vec<u64> = (0..n).map(|_| r.next() & mask).collect(); let bl = n / nb + 1; for ch in v.chunks_mut(bl) { ch.sort_unstable(); } v }
+        _ /* near_sorted */ => { let mut v: Vec<u64> = (0..n).map(|_| r.next() & mask).collect(); v.sort_unstable(); for _ in 0..(1 + n / 5000) { let i = r.usize_below(n); let j = r.usize_below(n); v.swap(i, j); } v }
+    }
+}
+const ALL_SHAPES: &[&str] = &["full", "hi_byte", "hi_word", "dominant", "all_equal", "sorted", "reversed", "period", "near_sorted"];
+/// one family per (size class, shape): `huge_64k_<shape>` / `huge_1m_<shape>`
+fn huge_cases(ctx: &mut Ctx, target: &str, small: &[&str], big: &[&str], mut f: impl FnMut(&mut Case, &str, bool) -> Res) {
+    let per = ctx.n(1, 4) as u64;
+    for (shapes, is_big) in [(small, false), (big, true)] { for sh in shapes { let g = format!("huge_{}_{sh}", if is_big { "1m" } else { "64k" }); for idx in 0..per { ctx.case(target, &g, idx, |c| f(c, sh, is_big)); } } }
+}
+fn huge_input(c: &mut Case, data: &[u64]) { c.input_str("n", &data.len().to_string()); c.input("head", &le64(&data[..data.len().min(64)])); let mut h = 0u64; for &x in data { h = (h ^ x).wrapping_mul(0x100000001b3); } c.hash_more(&h.to_le_bytes()); c.set_nontrivial(data.len() >= 2); }
+
+fn huge_radix(c: &mut Case, shape: &str, big: bool, wide: bool, path: RPath) -> Res {
+    let n = huge_n(c, big);
+    let cfg = match path {
+        RPath::Seq => RadixSortConfig { use_parallel: c.rng.bool(), parallel_threshold: 1 << 40, radix_bits: pick_bits(c), use_counting_sort_threshold: 0, use_simd: c.rng.bool() },
+        RPath::Par => RadixSortConfig { use_parallel: true, parallel_threshold: *c.rng.pick(&[10_000usize, 10_000, 1000, 32_768]), radix_bits: pick_bits(c), use_counting_sort_threshold: 0, use_simd: c.rng.bool() },
+        RPath::Count => RadixSortConfig { use_parallel: false, parallel_threshold: 1 << 40, radix_bits: pick_bits(c), use_counting_sort_threshold: n + c.rng.usize_below(3), use_simd: c.rng.bool() },
+    };
+    // counting path: values bounded (it allocates max+1 counters); every value then occurs far more than 65 535 times for small widths
+    let bits = if path == RPath::Count { *c.rng.pick(&[1u32, 4, 8, 16, 20]) } else if wide { 64 } else { 32 };
+    let data = huge_ints(c, shape, n, bits.max(8)); let data: Vec<u64> = if bits < 8 { data.iter().map(|x| x & ((1 << bits) - 1)).collect() } else { data };
+    c.input_str("cfg", &format!("{cfg:?}")); huge_input(c, &data); c.note(match path { RPath::Seq => "seq", RPath::Par => "parallel", RPath::Count => "counting" }, 1);
+    if wide { let mut d = data.clone(); let mut s = RadixSort::with_config(cfg); lib!("sort_u64", s.sort_u64(&mut d)); check_perm(c, "sort_u64", &data, &d) }
+    else { let data: Vec<u32> = data.iter().map(|&x| x as u32).collect(); let mut d = data.clone(); let mut s = RadixSort::with_config(cfg); lib!("sort_u32", s.sort_u32(&mut d)); check_perm(c, "sort_u32", &data, &d) }
+}
+fn huge_adv(c: &mut Case, shape: &str, big: bool, wide: bool, force: Option<SortingStrategy>, adaptive: bool, par: bool, simd: bool) -> Res {
+    let mut cfg = adv_cfg(c, force, adaptive, par, simd); if par && c.rng.bool() { cfg.parallel_threshold = 10_000; }
+    let n = huge_n(c, big); let data = huge_ints(c, shape, n, if wide { 64 } else { 32 }); huge_input(c, &data);
+    if wide { adv_run::<u64>(c, cfg, &data) } else { let d: Vec<u32> = data.iter().map(|&x| x as u32).collect(); adv_run::<u32>(c, cfg, &d) }
+}
+fn huge_strings(c: &mut Case, shape: &str, n: usize) -> Vec<Vec<u8>> {
+    let r = &mut c.rng;
+    let mut v: Vec<Vec<u8>> = match shape {
+        "fanout256" => { let pl = r.usize_below(12); let p = r.bytes(pl); (0..n).map(|_| { let mut s = p.clone(); s.push(r.next() as u8); if r.bool() { s.push(r.below(3) as u8); } s }).collect() }
+        "short_dups" => (0..n).map(|_| { let l = r.usize_below(3); (0..l).map(|_| b'a' + r.below(2) as u8).collect() }).collect(),
+        "shared_prefix" => { let pl = 9 + r.usize_below(40); /* < 64: AdvancedRadixSort's MSD finishes buckets deeper than 64 bytes with a (quadratic) insertion sort */ let p = r.bytes(pl); (0..n).map(|_| { let mut s = p.clone(); for _ in 0..r.usize_below(4) { s.push(r.next() as u8); } s }).collect() }
+        _ /* sorted */ => (0..n).map(|_| { let l = r.usize_below(7); r.bytes(l) }).collect(),
+    };
+    if shape == "sorted" { v.sort_unstable(); }
+    v
+}
+fn huge_str_input(c: &mut Case, v: &[Vec<u8>]) { c.input_str("n", &v.len().to_string()); c.input("head", &ser_strings(&v[..v.len().min(16)])); let mut h = 0u64; for s in v { for &b in s { h = (h ^ b as u64).wrapping_mul(0x100000001b3); } h = h.rotate_left(7); } c.hash_more(&h.to_le_bytes()); c.set_nontrivial(v.len() >= 2); }
+fn huge_co(c: &mut Case, shape: &str, big: bool, path: CoPath) -> Res {
+    // aware_l2 / aware_l3 are only reachable with elements wider than the 8 bytes the selector assumes
+    let n = huge_n(c, big); let pairs = matches!(path, CoPath::AwareL2 | CoPath::AwareL3) || (!big && c.rng.bool()); let esz = if pairs { 16 } else { 8 };
+    let keys = huge_ints(c, shape, n, 64); huge_input(c, &keys);
+    let mut cfg = co_cfg(c, path, n, esz);
+    if path == CoPath::Hybrid { let h = &mut cfg.cache_hierarchy; h.l2_size = h.l2_size.min(n * esz / 2).max(h.l2_line_size); } // keep the (quadratic on sorted input) quicksort branch out of the huge cases
+    if pairs { let d: Vec<(u64, u64)> = keys.iter().enumerate().map(|(i, &k)| (k, i as u64)).collect(); co_run(c, path, &d, cfg, true) } else { co_run(c, path, &keys, cfg, true) }
+}
+fn nofile_limit() -> u64 { let mut r = libc::rlimit { rlim_cur: 0, rlim_max: 0 }; if unsafe { libc::getrlimit(libc::RLIMIT_NOFILE, &mut r) } == 0 { r.rlim_cur as u64 } else { u64::MAX } }
+/// Number of runs ReplaceSelectSort::generate_runs produces for `data` with a heap of `b` elements (mirror of its control flow,
+/// values only: the heap is ordered by value, not by run) — input-only predicate for the descriptor-limit tag.
+fn simulate_runs(data: &[u64], b: usize) -> usize {
+    use std::cmp::Reverse; use std::collections::BinaryHeap;
+    let b = b.max(1); let mut heap: BinaryHeap<Reverse<(u64, usize, usize)>> = BinaryHeap::new(); let mut it = data.iter().copied(); let mut seq = 0usize;
+    for _ in 0..b { if let Some(x) = it.next() { heap.push(Reverse((x, seq, 0))); seq += 1; } else { break; } }
+    let (mut cur, mut runs) = (0usize, 0usize);
+    while let Some(Reverse((m, _, _))) = heap.pop() {
+        let next_is_new = |h: &BinaryHeap<Reverse<(u64, usize, usize)>>, cur: usize| h.peek().map(|e| (e.0).2).unwrap_or(0) > cur;
+        if let Some(x) = it.next() { seq += 1; if x >= m { heap.push(Reverse((x, seq, cur))); } else { heap.push(Reverse((x, seq, cur + 1))); if heap.is_empty() || next_is_new(&heap, cur) { runs += 1; cur += 1; } } }
+        else if heap.is_empty() || next_is_new(&heap, cur) { runs += 1; cur += 1; }
+    }
+    runs
+}
+fn huge_ext_cfg(c: &mut Case, dir: &std::path::Path, esz: usize, elems: usize) -> ReplaceSelectSortConfig { let mut cfg = ext_cfg(c, dir, esz, elems); cfg.use_secure_memory = false; cfg }
+/// k sorted runs holding `total` elements altogether
+fn huge_runs(c: &mut Case, fam: &str, k: usize, total: usize) -> Vec<Vec<u64>> {
+    let r = &mut c.rng; let eq = r.next(); let low = r.next() & 0xffff_ffff;
+    let lens: Vec<usize> = match fam { "skewed" => (0..k).map(|w| if w == k / 2 { total * 9 / 10 } else { total / (10 * k.max(2)) + r.usize_below(3) }).collect(),
+        "many_ways" => (0..k).map(|_| r.usize_below(3)).collect(), _ => (0..k).map(|w| total / k + (w % 3)).collect() };
+    let mut v: Vec<Vec<u64>> = lens.iter().map(|&l| (0..l).map(|_| match fam { "all_equal" => eq, "few_values" => r.below(5), "hi_word" => (r.next() << 32) | low, _ => r.next() }).collect()).collect();
+    for x in v.iter_mut() { x.sort_unstable(); }
+    v
+}
+fn huge_runs_case(c: &mut Case, fam: &str, k: usize, total: usize) -> (Vec<Vec<u64>>, Vec<u64>) {
+    let rs = huge_runs(c, fam, k, total); let mut e: Vec<u64> = rs.iter().flatten().copied().collect(); e.sort_unstable();
+    c.input_str("ways", &k.to_string()); huge_input(c, &e); c.set_nontrivial(k >= 2 && e.len() >= 2); c.note(&format!("ways_{}", k.min(11)), 1);
+    (rs, e)
+}
+const RUN_SHAPES: &[&str] = &["full", "all_equal", "few_values", "hi_word", "skewed"];
+fn huge_sorted_u32(c: &mut Case, len: usize, universe: u64, strict: bool) -> Vec<u32> {
+    if strict { let gap = (u32::MAX as u64 / (len as u64 + 1)).max(1).min(universe.max(1)); let mut cur = 0u64; (0..len).map(|_| { cur += 1 + c.rng.below(gap); cur.min(u32::MAX as u64) as u32 }).collect::<BTreeSet<u32>>().into_iter().collect() }
+    else { let mut v: Vec<u32> = (0..len).map(|_| c.rng.below(universe) as u32).collect(); v.sort_unstable(); v }
+}
+const HSET_FAMS: &[&str] = &["few_values", "overlap", "strict", "tiny_vs_huge", "identical", "all_equal"];
+fn huge_set_inputs(c: &mut Case, fam: &str, big: bool) -> (Vec<u32>, Vec<u32>) {
+    let n = huge_n(c, big); let m = if c.rng.bool() { huge_n(c, false) } else { n };
+    let (a, b) = match fam {
+        "few_values" => (huge_sorted_u32(c, n, 3, false), huge_sorted_u32(c, m, 4, false)),
+        "strict" => (huge_sorted_u32(c, n, 40, true), huge_sorted_u32(c, m, 40, true)),
+        "tiny_vs_huge" => { let t = c.rng.usize_below(6); let u = *c.rng.pick(&[7u64, 5000, 1 << 31]); let a = huge_sorted_u32(c, t, u, false); let b = huge_sorted_u32(c, n, u, false); if c.rng.chance(3, 4) { (a, b) } else { (b, a) } }
+        "identical" => { let a = huge_sorted_u32(c, n, 50_000, false); (a.clone(), a) }
+        "all_equal" => { let v = c.rng.next() as u32; (vec![v; n], vec![if c.rng.chance(3, 4) { v } else { v.wrapping_add(1) }; m]) }
+        _ => { let u = *c.rng.pick(&[5000u64, 200_000]); (huge_sorted_u32(c, n, u, false), huge_sorted_u32(c, m, u, false)) }
+    };
+    c.input_str("sizes", &format!("{}x{}", a.len(), b.len())); let mut h = 0u64; for &x in a.iter().chain(b.iter()) { h = (h ^ x as u64).wrapping_mul(0x100000001b3); } c.hash_more(&h.to_le_bytes());
+    c.input("a_head", &a.iter().take(32).flat_map(|x| x.to_le_bytes()).collect::<Vec<u8>>()); c.set_nontrivial(!a.is_empty() && !b.is_empty());
+    (a, b)
+}
+fn huge_kway_inputs(c: &mut Case, fam: &str, big: bool) -> Vec<Vec<u32>> {
+    let total = huge_n(c, big); let k = 2 + c.rng.usize_below(7); let u = match fam { "few_values" => 3, "strict" => 0, _ => 20_000 };
+    let ws: Vec<Vec<u32>> = (0..k).map(|w| { let len = if fam == "skewed" && w > 0 { 1 + c.rng.usize_below(50) } else { total / k + w }; if fam == "strict" { huge_sorted_u32(c, len, 6, true) } else { huge_sorted_u32(c, len, if fam == "skewed" { 60 } else { u }, false) } }).collect();
+    c.input_str("ways", &format!("{:?}", ws.iter().map(|w| w.len()).collect::<Vec<_>>())); let mut h = 0u64; for w in &ws { for &x in w { h = (h ^ x as u64).wrapping_mul(0x100000001b3); } } c.hash_more(&h.to_le_bytes());
+    c.set_nontrivial(true); if ws.iter().any(|w| w.windows(2).any(|p| p[0] == p[1])) { c.tag("duplicates_within_a_way"); } c.note(&format!("ways_{}", k.min(11)), 1);
+    ws
+}
+
+fn run_huge(ctx: &mut Ctx) {
+    use SortingStrategy::*;
+    const LIN: &[&str] = &["sorted", "all_equal", "near_sorted"];            // shapes on which insertion sort stays linear
+    const BIG3: &[&str] = &["full", "hi_byte", "dominant"];
+    const BIG2: &[&str] = &["full", "hi_word"];
+    // RadixSort
+    for (wide, w) in [(false, "u32"), (true, "u64")] {
+        huge_cases(ctx, &format!("radix/{w}_seq"), ALL_SHAPES, BIG3, |c, sh, big| huge_radix(c, sh, big, wide, RPath::Seq));
+        huge_cases(ctx, &format!("radix/{w}_par"), ALL_SHAPES, BIG3, |c, sh, big| huge_radix(c, sh, big, wide, RPath::Par));
+    }
+    huge_cases(ctx, "radix/u32_counting", &["full", "dominant", "period"], &["full", "all_equal"], |c, sh, big| huge_radix(c, sh, big, false, RPath::Count));
+    huge_cases(ctx, "radix/bytes", &["fanout256", "short_dups", "shared_prefix", "sorted"], &["short_dups"], |c, sh, big| {
+        let n = huge_n(c, big); let data = huge_strings(c, sh, n); huge_str_input(c, &data); let mut d = data.clone(); lib!("sort_bytes", RadixSort::new().sort_bytes(&mut d)); check_perm(c, "sort_bytes", &data, &d) });
+    // two long identical halves followed by a differing byte: X c, X d, X with |X| >= 64 KiB
+    for idx in 0..ctx.n(2, 8) as u64 { ctx.case("radix/bytes", "huge_xcxd", idx, |c| { let l = *c.rng.pick(&[65_536usize, 65_537, 131_073, 1_048_577]); let x = if c.rng.bool() { vec![c.rng.next() as u8; l] } else { let p = c.rng.bytes(7); (0..l).map(|i| p[i % 7]).collect() };
+        let mut data = vec![x.clone(), x.clone(), x.clone(), x[..l - 1].to_vec()]; data[0].push(200); data[1].push(100); c.rng.shuffle(&mut data); c.input_str("x_len", &l.to_string()); c.input("x_head", &x[..32]); c.set_nontrivial(true);
+        let mut d = data.clone(); lib!("sort_bytes", RadixSort::new().sort_bytes(&mut d)); check_perm(c, "sort_bytes", &data, &d) }); }
+    // KeyValueRadixSort: few distinct keys (one key > 65 535 times); the element lookup is quadratic for distinct keys, so those stay out
+    for (wide, w) in [(false, "u32"), (true, "u64")] { huge_cases(ctx, &format!("kv/{w}"), &["all_equal", "period"], &["period"], |c, sh, big| {
+        let n = huge_n(c, big); let keys = if sh == "period" { let p = 2 + c.rng.usize_below(3); let pat: Vec<u64> = (0..p).map(|_| c.rng.next() >> if wide { 0 } else { 32 }).collect(); (0..n).map(|i| pat[i % p]).collect() } else { huge_ints(c, sh, n, if wide { 64 } else { 32 }) };
+        huge_input(c, &keys); c.tag("kv_duplicate_keys");
+        if wide { let data: Vec<(u64, u32)> = keys.iter().enumerate().map(|(i, &k)| (k, i as u32)).collect(); let mut d = data.clone(); lib!("sort_by_key", KeyValueRadixSort::<u64, u32>::new().sort_by_key(&mut d)); check_perm_by(c, "sort_by_key", &data, &d, |a, b| a.0.cmp(&b.0)) }
+        else { let data: Vec<(u32, u32)> = keys.iter().enumerate().map(|(i, &k)| (k as u32, i as u32)).collect(); let mut d = data.clone(); lib!("sort_by_key", KeyValueRadixSort::<u32, u32>::new().sort_by_key(&mut d)); check_perm_by(c, "sort_by_key", &data, &d, |a, b| a.0.cmp(&b.0)) } }); }
+    // AdvancedRadixSort
+    for (wide, w) in [(false, "u32"), (true, "u64")] {
+        huge_cases(ctx, &format!("adv/{w}_auto"), ALL_SHAPES, BIG3, |c, sh, big| { let simd = c.rng.bool(); huge_adv(c, sh, big, wide, None, true, false, simd) });
+        huge_cases(ctx, &format!("adv/{w}_insertion"), LIN, &["sorted", "all_equal"], |c, sh, big| huge_adv(c, sh, big, wide, Some(Insertion), true, false, false));
+        huge_cases(ctx, &format!("adv/{w}_timsort"), &["full", "hi_byte", "dominant", "reversed"], BIG2, |c, sh, big| huge_adv(c, sh, big, wide, Some(TimSort), true, false, false));
+        huge_cases(ctx, &format!("adv/{w}_msd"), ALL_SHAPES, BIG3, |c, sh, big| huge_adv(c, sh, big, wide, Some(MsdRadix), true, false, false));
+        for (simd, sn) in [(false, "scalar"), (true, "simd")] {
+            huge_cases(ctx, &format!("adv/{w}_lsd_{sn}"), ALL_SHAPES, BIG3, |c, sh, big| huge_adv(c, sh, big, wide, Some(LsdRadix), false, false, simd));
+            huge_cases(ctx, &format!("adv/{w}_lsd_par_{sn}"), ALL_SHAPES, BIG3, |c, sh, big| huge_adv(c, sh, big, wide, Some(LsdRadix), true, true, simd));
+        }
+    }
+    for (force, name, small, big) in [(None, "auto", &["fanout256", "short_dups", "shared_prefix", "sorted"][..], &["short_dups"][..]), (Some(Insertion), "insertion", &["sorted"][..], &[][..]), (Some(TimSort), "timsort", &["fanout256", "shared_prefix"][..], &[][..]),
+        (Some(LsdRadix), "lsd", &["fanout256", "short_dups", "shared_prefix"][..], &[][..]), (Some(MsdRadix), "msd", &["fanout256", "short_dups", "shared_prefix", "sorted"][..], &["fanout256"][..])] {
+        huge_cases(ctx, &format!("adv/str_{name}"), small, big, |c, sh, is_big| { let simd = c.rng.bool(); let cfg = adv_cfg(c, force, true, false, simd); let n = huge_n(c, is_big); let owned = huge_strings(c, sh, n); huge_str_input(c, &owned);
+            let data: Vec<RadixString> = owned.iter().map(|s| RadixString::new(s)).collect(); adv_run(c, cfg, &data) });
+    }
+    // CacheObliviousSort (aware_l1 = insertion sort: linear shapes only; aware_l2 = Lomuto quicksort: shapes without long equal/sorted stretches)
+    huge_cases(ctx, "cosort/default", ALL_SHAPES, &["full", "hi_byte", "dominant", "sorted"], |c, sh, big| huge_co(c, sh, big, CoPath::Default));
+    huge_cases(ctx, "cosort/aware_l1", LIN, &["sorted", "all_equal"], |c, sh, big| huge_co(c, sh, big, CoPath::AwareL1));
+    huge_cases(ctx, "cosort/aware_l2", &["full", "hi_word", "hi_byte"], &["full"], |c, sh, big| huge_co(c, sh, big, CoPath::AwareL2));
+    huge_cases(ctx, "cosort/aware_l3", ALL_SHAPES, BIG3, |c, sh, big| huge_co(c, sh, big, CoPath::AwareL3));
+    for (path, name) in [(CoPath::Funnel, "funnel"), (CoPath::Hybrid, "hybrid"), (CoPath::Direct, "funnel_direct")] { huge_cases(ctx, &format!("cosort/{name}"), ALL_SHAPES, BIG3, |c, sh, big| huge_co(c, sh, big, path)); }
+    // ReplaceSelectSort: shapes that keep the number of runs (= simultaneously open files, linear-scan merge ways) small; runs themselves exceed 65 536 elements
+    const EXT_SMALL: &[&str] = &["sorted", "all_equal", "near_sorted", "blocks"]; const EXT_BIG: &[&str] = &["sorted", "blocks"];
+    huge_cases(ctx, "extsort/rs_u64", EXT_SMALL, EXT_BIG, |c, sh, big| {
+        let dir = tmpdir().map_err(|e| bad("__inconclusive", format!("tempdir: {e}")))?; let n = huge_n(c, big); let el = *c.rng.pick(&[1usize, 7, 1000, 65_537, 200_000]);
+        let cfg = huge_ext_cfg(c, dir.path(), 8, el); let data = huge_ints(c, sh, n, 64); c.input_str("buf", &cfg.memory_buffer_size.to_string()); huge_input(c, &data);
+        let mut s = ReplaceSelectSort::<u64>::new(cfg); let out = lib!("ReplaceSelectSort::sort", s.sort(data.clone())); let runs = s.stats().runs_generated; c.note("runs_total", runs as u64); c.note(if runs >= 2 { "multi_run" } else { "single_run" }, 1);
+        check_perm(c, "ReplaceSelectSort::sort", &data, &out) });
+    huge_cases(ctx, "extsort/trait_vec", &["sorted", "blocks", "near_sorted"], &["blocks"], |c, sh, big| {
+        let dir = tmpdir().map_err(|e| bad("__inconclusive", format!("tempdir: {e}")))?; let n = huge_n(c, big); let el = *c.rng.pick(&[7usize, 65_537, 300_000, 2_000_000]);
+        let cfg = huge_ext_cfg(c, dir.path(), 8, el); let data = huge_ints(c, sh, n, 64); c.input_str("buf", &cfg.memory_buffer_size.to_string()); huge_input(c, &data); c.note(if n * 8 <= cfg.memory_buffer_size { "in_memory" } else { "external" }, 1);
+        let mut d = data.clone(); lib!("external_sort_with_config", d.external_sort_with_config(cfg)); check_perm(c, "Vec::external_sort_with_config", &data, &d) });
+    // Random input: run generation degenerates to runs of ~2 elements whatever the buffer, and merge_runs opens every run file at once
+    // (merge_ways is not honoured). n = 20 000 stays below this sandbox's descriptor limit, n = 50 000 does not.
+    for (g, n) in [("huge_runs_10k", 20_000usize), ("huge_runs_25k", 50_000)] { for idx in 0..ctx.n(1, 3) as u64 { ctx.case("extsort/many_runs", g, idx, |c| {
+        let dir = tmpdir().map_err(|e| bad("__inconclusive", format!("tempdir: {e}")))?; let el = *c.rng.pick(&[1usize, 64, 2048, 8192]); let cfg = huge_ext_cfg(c, dir.path(), 8, el); let b = cfg.memory_buffer_size / 8;
+        let extra = c.rng.usize_below(100); let data = huge_ints(c, "full", n + extra, 64); c.input_str("buf", &cfg.memory_buffer_size.to_string()); huge_input(c, &data);
+        let runs = simulate_runs(&data, b); c.note("predicted_runs", runs as u64); let lim = nofile_limit(); if runs as u64 + 64 > lim { c.tag("runs_exceed_open_file_limit"); }
+        let mut s = ReplaceSelectSort::<u64>::new(cfg); let out = lib!("ReplaceSelectSort::sort", s.sort(data.clone())); c.note("runs_total", s.stats().runs_generated as u64);
+        check_perm(c, "ReplaceSelectSort::sort", &data, &out) }); } }
+    huge_cases(ctx, "extsort/cmp_key", &["sorted", "blocks", "all_equal"], &[], |c, sh, big| {
+        let dir = tmpdir().map_err(|e| bad("__inconclusive", format!("tempdir: {e}")))?; let n = huge_n(c, big); let el = *c.rng.pick(&[3usize, 1000, 70_000]); let cfg = huge_ext_cfg(c, dir.path(), 16, el);
+        let keys = huge_ints(c, sh, n, 64); huge_input(c, &keys); let data: Vec<(u64, u32)> = keys.iter().enumerate().map(|(i, &k)| (k, i as u32)).collect();
+        let mut s = ReplaceSelectSort::with_comparator(cfg, |a: &(u64, u32), b: &(u64, u32)| a.0.cmp(&b.0)); let out = lib!("ReplaceSelectSort::sort", s.sort(data.clone())); check_perm_by(c, "ReplaceSelectSort(with key comparator)", &data, &out, |a, b| a.0.cmp(&b.0)) });
+    huge_cases(ctx, "extsort/rs_bytes", &["sorted"], &[], |c, sh, big| {
+        let dir = tmpdir().map_err(|e| bad("__inconclusive", format!("tempdir: {e}")))?; let n = huge_n(c, big); let el = *c.rng.pick(&[2usize, 1000, 70_000]); let cfg = huge_ext_cfg(c, dir.path(), 24, el);
+        let data = huge_strings(c, sh, n); huge_str_input(c, &data); let out = lib!("ReplaceSelectSort::sort", ReplaceSelectSort::<Vec<u8>>::new(cfg).sort(data.clone())); check_perm(c, "ReplaceSelectSort::sort", &data, &out) });
+    // merges: > 65 536 / > 10^6 elements in total, one run longer than 65 536, and > 65 536 ways for the heap merge
+    for (mode, name) in [(0, "heap"), (1, "tournament"), (2, "hier")] {
+        huge_cases(ctx, &format!("mwm/{name}"), RUN_SHAPES, &["full", "few_values", "skewed"], |c, sh, big| { let k = if mode == 1 { 9 + c.rng.usize_below(24) } else { 2 + c.rng.usize_below(15) }; let total = huge_n(c, big); let (rs, e) = huge_runs_case(c, sh, k, total);
+            let cfg = MultiWayMergeConfig { use_parallel: c.rng.bool(), buffer_size: 65536, max_merge_ways: if mode == 2 { 1 + c.rng.usize_below(3) } else { 1024 }, use_tournament_tree: mode == 1 };
+            let src: Vec<VectorSource<u64>> = rs.into_iter().map(VectorSource::new).collect(); let out: Vec<u64> = libm!("MultiWayMerge::merge", MultiWayMerge::with_config(cfg).merge(src)); check_merge(c, "MultiWayMerge::merge", &e, &out) });
+        if mode != 1 { for idx in 0..ctx.n(1, 4) as u64 { ctx.case(&format!("mwm/{name}"), "huge_many_ways", idx, |c| { let k = *c.rng.pick(&[65_536usize, 65_537, 70_001, 131_073]); let (rs, e) = huge_runs_case(c, "many_ways", k, 0);
+            let cfg = MultiWayMergeConfig { use_parallel: false, buffer_size: 64, max_merge_ways: if mode == 2 { 1024 } else { 1 << 20 }, use_tournament_tree: false };
+            let src: Vec<VectorSource<u64>> = rs.into_iter().map(VectorSource::new).collect(); let out: Vec<u64> = libm!("MultiWayMerge::merge", MultiWayMerge::with_config(cfg).merge(src)); check_merge(c, "MultiWayMerge::merge", &e, &out) }); } }
+    }
+    huge_cases(ctx, "mergeops/two", &["full", "few_values", "skewed"], &["full"], |c, sh, big| { let total = huge_n(c, big); let (rs, e) = huge_runs_case(c, sh, 2, total); let mut it = rs.into_iter(); let (a, b) = (it.next().unwrap(), it.next().unwrap()); let out = nopanic("merge_two", || MergeOperations::merge_two(a, b))?; check_merge(c, "merge_two", &e, &out) });
+    huge_cases(ctx, "mergeops/in_place", &["full", "few_values", "skewed"], &["full"], |c, sh, big| { let total = huge_n(c, big); let (rs, e) = huge_runs_case(c, sh, 2, total); let mut d = rs[0].clone(); d.extend_from_slice(&rs[1]); let mid = rs[0].len(); nopanic("merge_in_place", || MergeOperations::merge_in_place(&mut d, mid))?; check_merge(c, "merge_in_place", &e, &d) });
+    huge_cases(ctx, "losertree/merge", RUN_SHAPES, &["full", "skewed"], |c, sh, big| { let k = 1 + c.rng.usize_below(16); let total = huge_n(c, big); let (rs, e) = huge_runs_case(c, sh, k, total); let mut cfg = LoserTreeConfig::default(); cfg.use_secure_memory = false; cfg.stable_sort = c.rng.bool();
+        let mut t = EnhancedLoserTree::<u64>::new(cfg); for r in rs { libm!("add_way", t.add_way(r.into_iter())); } let out = libm!("merge_to_vec", t.merge_to_vec()); check_merge(c, "EnhancedLoserTree::merge_to_vec", &e, &out) });
+    huge_cases(ctx, "losertree/iter", &["full", "few_values", "skewed"], &[], |c, sh, big| { let k = 1 + c.rng.usize_below(9); let total = huge_n(c, big); let (rs, e) = huge_runs_case(c, sh, k, total); let mut cfg = LoserTreeConfig::default(); cfg.use_secure_memory = false;
+        let mut t = EnhancedLoserTree::<u64>::new(cfg); for r in rs { libm!("add_way", t.add_way(r.into_iter())); } libm!("initialize", t.initialize()); let out: Vec<u64> = nopanic("Iterator::collect", || (&mut t).collect())?; check_merge(c, "EnhancedLoserTree iterator", &e, &out) });
+    huge_cases(ctx, "losertree/stable", &["few_values", "all_equal"], &[], |c, sh, big| { let k = 2 + c.rng.usize_below(6); let total = huge_n(c, big); let rs = huge_runs(c, sh, k, total); c.input_str("ways", &k.to_string()); c.input_str("total", &total.to_string()); c.set_nontrivial(true);
+        let tagged: Vec<Vec<(u64, u32)>> = rs.iter().enumerate().map(|(w, r)| r.iter().enumerate().map(|(i, &x)| (x, (w * 1_000_000 + i) as u32)).collect()).collect(); let mut e: Vec<(u64, u32)> = tagged.iter().flatten().copied().collect(); e.sort_unstable();
+        let mut cfg = LoserTreeConfig::default(); cfg.use_secure_memory = false; cfg.stable_sort = true; let mut t = EnhancedLoserTree::with_comparator(cfg, |a: &(u64, u32), b: &(u64, u32)| a.0.cmp(&b.0)); for r in tagged { libm!("add_way", t.add_way(r.into_iter())); }
+        let out = libm!("merge_to_vec", t.merge_to_vec()); c.ev(e.len() as u64); ensure!(out.len() == e.len(), "merge_len", "merged {} of {}", out.len(), e.len()); ensure!(out == e, "merge_not_stable", "stable_sort=true but equal keys left way/run order (or multiset differs)"); Ok(()) });
+    huge_cases(ctx, "simd/merge2", &["full", "few_values", "skewed", "all_equal"], &["full", "skewed"], |c, sh, big| { let total = huge_n(c, big); let rs = huge_runs(c, sh, 2, total); let rs: Vec<Vec<i32>> = rs.iter().map(|r| { let mut v: Vec<i32> = r.iter().map(|&x| x as u32 as i32).collect(); v.sort_unstable(); v }).collect();
+        let cfg = SimdConfig { use_avx2: c.rng.chance(3, 4), use_bmi2: c.rng.bool(), min_vector_size: *c.rng.pick(&[1usize, 8, 64]), prefetch_distance: c.rng.usize_below(4) }; c.input_str("cfg", &format!("{cfg:?}")); c.input_str("sizes", &format!("{}x{}", rs[0].len(), rs[1].len())); c.hash_more(&(rs[0].first().copied().unwrap_or(0) as i64).to_le_bytes()); c.set_nontrivial(true);
+        let mut e: Vec<i32> = rs.iter().flatten().copied().collect(); e.sort_unstable(); let out = nopanic("merge_sorted_i32", || SimdComparator::with_config(cfg).merge_sorted_i32(&rs[0], &rs[1]))?; check_merge(c, "merge_sorted_i32", &e, &out) });
+    huge_cases(ctx, "simd/merge_multi", &["full", "few_values", "skewed"], &["full"], |c, sh, big| { let k = 2 + c.rng.usize_below(15); let total = huge_n(c, big); let rs = huge_runs(c, sh, k, total); let rs: Vec<Vec<i32>> = rs.iter().map(|r| { let mut v: Vec<i32> = r.iter().map(|&x| x as u32 as i32).collect(); v.sort_unstable(); v }).collect();
+        c.input_str("ways", &k.to_string()); c.input_str("total", &total.to_string()); c.hash_more(&(rs[0].first().copied().unwrap_or(0) as i64).to_le_bytes()); c.set_nontrivial(true); let mut e: Vec<i32> = rs.iter().flatten().copied().collect(); e.sort_unstable();
+        let out = nopanic("merge_multiple_sorted", || SimdOperations::merge_multiple_sorted(rs.clone()))?; check_merge(c, "merge_multiple_sorted", &e, &out) });
+    // set operations on two huge sorted sequences (one value > 65 535 times; tiny vs huge for the binary-search variants)
+    for (op, name) in SETOPS.iter().enumerate() {
+        let (small, big): (&[&str], &[&str]) = if op % 3 == 0 { (HSET_FAMS, &["few_values", "tiny_vs_huge"]) } else if op % 3 == 1 { (HSET_FAMS, &["overlap", "tiny_vs_huge"]) } else { (HSET_FAMS, &["all_equal", "strict"]) };
+        huge_cases(ctx, &format!("setops/{name}"), small, big, |c, fam, is_big| { let (a, b) = huge_set_inputs(c, fam, is_big); setops_check(c, op, a, b) });
+    }
+    for (op, name) in ["inter_bitmask", "inter_general", "union", "filter_merge", "count_freq"].iter().enumerate() {
+        huge_cases(ctx, &format!("setopsk/{name}"), &["few_values", "overlap", "strict", "skewed"], &["overlap"], |c, fam, is_big| { let ws = huge_kway_inputs(c, fam, is_big); kway_check(c, op, ws) });
+    }
+}
+
 pub fn run(ctx: &mut Ctx) {
     run_radix(ctx);
     run_cosort(ctx);
     run_extsort(ctx);
     run_merges(ctx);
     run_setops(ctx);
+    run_huge(ctx);
     run_bytes_deep(ctx);
     run_cosort_k1(ctx);
 }
